@@ -270,6 +270,9 @@ pub struct DumpCfg {
     /// the system range of the caller's mappings begins this far above their (bias-adjusted) start: the two are
     /// independent inputs, and what is listed is the start
     pub user_sys_delta: u64,
+    /// the earlier requests on the writer (`pre_dumps`) are made with this principal-mapping address; the recorded
+    /// request with `principal`
+    pub pre_principal: Option<u64>,
     /// (phnum, phdr, gate, entry)
     pub direct_auxv: Option<(u64, u64, u64, u64)>,
     /// how long the dumper waits for the SIGSTOP to take effect (None: the library's default)
@@ -562,6 +565,9 @@ pub fn dump_case(prop: &str, id: &str, t: &Target, cfg: &DumpCfg, dest: &mut Rec
     std::fs::write(format!("{}.fds", base), fds.join("\n")).ok();
     let thr = t.thread_field();
     let mut w = writer_for(t, cfg);
+    if let (Some(pp), true) = (cfg.pre_principal, cfg.pre_dumps > 0 && cfg.principal.is_some()) {
+        w.set_principal_mapping_address(pp as usize);
+    }
     for _ in 0..cfg.pre_dumps {
         let mut scratch = RecDest::new(vec![], 0);
         if let Some(k) = cfg.pre_fail_call {
@@ -572,6 +578,9 @@ pub fn dump_case(prop: &str, id: &str, t: &Target, cfg: &DumpCfg, dest: &mut Rec
         let _ = std::panic::catch_unwind(std::panic::AssertUnwindSafe(|| w.dump(&mut scratch)));
         std::panic::set_hook(prev);
         t.wait_parked();
+    }
+    if let (Some(_), true, Some(p)) = (cfg.pre_principal, cfg.pre_dumps > 0, cfg.principal) {
+        w.set_principal_mapping_address(p as usize);
     }
     let mut tracer = cfg.trace_tid.and_then(crate::c01::spawn_tracer);
     let prev = std::panic::take_hook();
